@@ -22,6 +22,9 @@ Definition nQ (s : shell) : Q := inject_Z (Z.of_nat (length (Ls s))).
 Definition volQ (s : shell) : Q := Qred (dy_Q (bv s) * nQ s / inject_Z (ns s)).
 Definition zQ (s : shell) : Q := Qred (dy_Q (dy_mul (bv s) (s1 s)) / inject_Z (ns s)).
 Definition w2Q (s : shell) : Q := Qred (dy_Q (dy_mul (dy_mul (bv s) (bv s)) (s2 s)) / inject_Z (ns s * ns s)).
+(* per-shell Kish effective sample size (sum L)^2 / sum L^2; the code uses the number of points when all L are zero *)
+Definition neffShQ (s : shell) : Q :=
+  if Z.eqb (dm (s2 s)) 0 then nQ s else Qred (dy_Q (dy_mul (s1 s) (s1 s)) / dy_Q (s2 s)).
 Definition nonempty (s : shell) : bool := match Ls s with [] => false | _ => true end.
 Definition Ztot (ss : list shell) : Q := fold_left (fun acc s => Qred (acc + zQ s)) (filter nonempty ss) 0%Q.
 Definition W2tot (ss : list shell) : Q := fold_left (fun acc s => Qred (acc + w2Q s)) (filter nonempty ss) 0%Q.
